@@ -341,6 +341,9 @@ func (p *Prog) calleeKeys(pkg *packages.Package, c *ast.CallExpr) []string {
 	}
 	f = f.Origin()
 	keys := []string{fkey(f)}
+	if f.Pkg() != nil && strings.HasPrefix(f.Pkg().Path(), modPrefix) {
+		keys = append(keys, p.forwardsTo(keys[0], 0)...)
+	}
 	if sig, ok := f.Type().(*types.Signature); ok && sig.Recv() != nil {
 		if _, isIface := sig.Recv().Type().Underlying().(*types.Interface); isIface {
 			// field-sensitive resolution through the constructor wiring, CHA as fallback
@@ -352,6 +355,9 @@ func (p *Prog) calleeKeys(pkg *packages.Package, c *ast.CallExpr) []string {
 								obj, _, _ := types.LookupFieldOrMethod(t, true, nil, f.Name())
 								if m, ok := obj.(*types.Func); ok {
 									keys = append(keys, fkey(m))
+									// a method that only forwards its parameters (host.MkdirAll = os.MkdirAll) stands for
+									// what it forwards to
+									keys = append(keys, p.forwardsTo(fkey(m), 0)...)
 								}
 							}
 							return keys
@@ -365,6 +371,48 @@ func (p *Prog) calleeKeys(pkg *packages.Package, c *ast.CallExpr) []string {
 		}
 	}
 	return keys
+}
+
+// forwardsTo: the functions a pure forwarder hands its parameters to, unchanged and in order (body = one call).
+func (p *Prog) forwardsTo(key string, depth int) []string {
+	fi := p.Func(key)
+	if fi == nil || fi.Decl.Body == nil || len(fi.Decl.Body.List) != 1 || depth > 2 {
+		return nil
+	}
+	var c *ast.CallExpr
+	switch st := fi.Decl.Body.List[0].(type) {
+	case *ast.ReturnStmt:
+		if len(st.Results) == 1 {
+			c, _ = ast.Unparen(st.Results[0]).(*ast.CallExpr)
+		}
+	case *ast.ExprStmt:
+		c, _ = ast.Unparen(st.X).(*ast.CallExpr)
+	}
+	if c == nil {
+		return nil
+	}
+	info := fi.Pkg.TypesInfo
+	var params []types.Object
+	for _, fld := range fi.Decl.Type.Params.List {
+		for _, nm := range fld.Names {
+			params = append(params, info.Defs[nm])
+		}
+	}
+	if len(params) != len(c.Args) {
+		return nil
+	}
+	for i, a := range c.Args {
+		id, ok := ast.Unparen(a).(*ast.Ident)
+		if !ok || info.Uses[id] != params[i] || id.Name == "_" {
+			return nil
+		}
+	}
+	fn, _ := typeutil.Callee(info, c).(*types.Func)
+	if fn == nil {
+		return nil
+	}
+	out := []string{fkey(fn.Origin())}
+	return append(out, p.forwardsTo(out[0], depth+1)...)
 }
 
 // throughDecorators adds, for every concrete type that is a decorator of the interface
